@@ -779,6 +779,7 @@ var c14Mutants = []Mutant{
 	{Name: "commit-without-lock", File: "internal/syncutil/merge.go", Old: "func (m *Merge[T]) commit() []T {\n\tm.lock.Lock()\n\tdefer m.lock.Unlock()\n", New: "func (m *Merge[T]) commit() []T {\n", Expect: "C14.R2"},
 	// R3
 	{Name: "no-update-falls-through-to-delete", File: "registry/remote/repository.go", Old: "\t\tif err != nil {\n\t\t\tif err == errNoReferrerUpdate {\n\t\t\t\treturn nil\n\t\t\t}\n\t\t\treturn err\n\t\t}", New: "\t\tif err != nil && err != errNoReferrerUpdate {\n\t\t\treturn err\n\t\t}", Expect: "C14.R3"},
+	{Name: "leader-fast-path-on-own-removal", File: "registry/remote/repository.go", Old: "\t\t\tif errors.Is(err, errdef.ErrNotFound) {\n\t\t\t\t// valid case: no old referrers index\n\t\t\t\treturn nil\n\t\t\t}", New: "\t\t\tif errors.Is(err, errdef.ErrNotFound) {\n\t\t\t\tif change.operation == referrerOperationRemove {\n\t\t\t\t\treturn errNoReferrerUpdate\n\t\t\t\t}\n\t\t\t\treturn nil\n\t\t\t}", Expect: "C14.R3.serialised-rmw"},
 	{Name: "skip-gc-ignored", File: "registry/remote/repository.go", Old: "\t\tif s.repo.SkipReferrersGC || oldIndexDesc == nil {\n\t\t\treturn nil\n\t\t}", New: "\t\tif oldIndexDesc == nil {\n\t\t\treturn nil\n\t\t}", Expect: "C14.R3"},
 	{Name: "delete-failure-not-marked", File: "registry/remote/repository.go", Old: "\t\t\treturn &ReferrersError{\n\t\t\t\tOp:      opDeleteReferrersIndex,\n", New: "\t\t\treturn &ReferrersError{\n\t\t\t\tOp:      \"DeleteIndex\",\n", Expect: "C14.R3"},
 	{Name: "merge-not-from-pool", File: "registry/remote/repository.go", Old: "\tmerge, done := s.repo.referrersMergePool.Get(referrersTag)\n\tdefer done()\n\treturn merge.Do(change, prepare, update)", New: "\tvar merge syncutil.Merge[referrerChange]\n\treturn merge.Do(change, prepare, update)", Expect: "C14.R3"},
